@@ -118,7 +118,8 @@ Section Oracle.
     end.
 
   Definition spec_C02 (t : list event) (r : pv + exn) : bool :=
-    if negb (existsb is_body t) then true else
+    (* what the caller receives on a normal return is what the body returned: the body ran *)
+    if negb (existsb is_body t) then negb (is_ok r) else
     match u_body U args kwargs st0 with
     | (BRaise e, stb) =>
         (* the exception object reaches the caller unchanged; nothing is evaluated afterwards *)
